@@ -810,10 +810,25 @@ func (vc *VC) execNext(x *ssa.Next, st *State) {
 	v := vc.define("next.v", vc.d.sortOf(vt), fmt.Sprintf("(select (select %s %s) %s)", mv, mi.m, k))
 	vc.assumeRange(v, vt, st, ok)
 	vc.assume(fmt.Sprintf("(=> %s (and (select (select %s %s) %s) (not (select %s %s))))", ok, md, mi.m, k, mi.visited, k))
-	vc.assume(fmt.Sprintf("(=> (not %s) (forall ((k!n %s)) (! (=> (select (select %s %s) k!n) (select %s k!n)) :pattern ((select (select %s %s) k!n)))))", ok, ks, md, mi.m, mi.visited, md, mi.m))
-	// cardinality facts (the map is assumed not to be modified while ranging unless the loop writes it)
-	vc.assume(fmt.Sprintf("(=> %s (< %s (select %s %s)))", ok, mi.count, ml, mi.m))
-	vc.assume(fmt.Sprintf("(=> (not %s) (= %s (select %s %s)))", ok, mi.count, ml, mi.m))
+	ins, del := vc.mapWritesInLoop(x.Block(), r)
+	if !ins {
+		// termination of the range: every key (still) present has been produced. Not assumed when the loop may insert
+		// into the ranged map (Go leaves it open whether such entries are produced).
+		vc.assume(fmt.Sprintf("(=> (not %s) (forall ((k!n %s)) (! (=> (select (select %s %s) k!n) (select %s k!n)) :pattern ((select (select %s %s) k!n)))))", ok, ks, md, mi.m, mi.visited, md, mi.m))
+	}
+	if !ins && !del {
+		// cardinality facts: valid only while the ranged map is not modified by the loop
+		vc.assume(fmt.Sprintf("(=> %s (< %s (select %s %s)))", ok, mi.count, ml, mi.m))
+		vc.assume(fmt.Sprintf("(=> (not %s) (= %s (select %s %s)))", ok, mi.count, ml, mi.m))
+	} else if !ins {
+		// deletions only: a map without keys has length 0
+		w := vc.fresh("next.w", ks)
+		vc.assumeRange(w, kt, st, "")
+		vc.assume(fmt.Sprintf("(=> (not %s) (or (select (select %s %s) %s) (= (select %s %s) 0)))", ok, md, mi.m, w, ml, mi.m))
+		vc.notes = append(vc.notes, "range over a map that the loop deletes from: no cardinality facts assumed")
+	} else {
+		vc.notes = append(vc.notes, "range over a map that the loop may insert into: neither exhaustiveness nor cardinality assumed")
+	}
 	vc.tuples[x] = []string{ok, k, v}
 	// advance
 	nv := vc.define("visited", "(Array "+ks+" Bool)", fmt.Sprintf("(ite %s (store %s %s true) %s)", ok, mi.visited, k, mi.visited))
@@ -843,4 +858,93 @@ func (vc *VC) execMakeClosure(x *ssa.MakeClosure, st *State) {
 	}
 	vc.vals[x] = id
 	vc.clos[x] = ci
+}
+
+// mapWritesInLoop reports whether the loop whose header contains the Next instruction may insert into / delete from
+// the map being ranged over.
+func (vc *VC) mapWritesInLoop(hdr *ssa.BasicBlock, r *ssa.Range) (ins, del bool) {
+	lp := vc.loopOf[hdr]
+	if lp == nil {
+		for _, l := range vc.loops {
+			if l.blocks[hdr] {
+				lp = l
+			}
+		}
+	}
+	if lp == nil {
+		return false, false
+	}
+	mt, ok := r.X.Type().Underlying().(*types.Map)
+	if !ok {
+		return false, false
+	}
+	strip := func(v ssa.Value) ssa.Value {
+		for {
+			if c, ok := v.(*ssa.ChangeType); ok {
+				v = c.X
+				continue
+			}
+			return v
+		}
+	}
+	mayAlias := func(a, b ssa.Value) bool {
+		a, b = strip(a), strip(b)
+		if a == b {
+			return true
+		}
+		_, ma := a.(*ssa.MakeMap)
+		_, mb := b.(*ssa.MakeMap)
+		if ma || mb {
+			return false // a map made in this function is different from any other map value
+		}
+		return true
+	}
+	sameType := func(t types.Type) bool {
+		m2, ok := t.Underlying().(*types.Map)
+		return ok && types.Identical(m2.Key(), mt.Key()) && types.Identical(m2.Elem(), mt.Elem())
+	}
+	for b := range lp.blocks {
+		for _, in := range b.Instrs {
+			switch x := in.(type) {
+			case *ssa.MapUpdate:
+				if sameType(x.Map.Type()) && mayAlias(x.Map, r.X) {
+					ins = true
+				}
+			case *ssa.Call:
+				if bi, ok := x.Call.Value.(*ssa.Builtin); ok {
+					if bi.Name() == "delete" && sameType(x.Call.Args[0].Type()) && mayAlias(x.Call.Args[0], r.X) {
+						del = true
+					}
+					continue
+				}
+				if vc.isNoop(&x.Call) {
+					continue
+				}
+				// a callee with a contract that may modify maps of this type
+				var sp *FuncSpec
+				if f := x.Call.StaticCallee(); f != nil {
+					sp = vc.w.specFor(f)
+				}
+				if sp == nil || len(sp.Modifies) > 0 {
+					if sp != nil {
+						txt := ""
+						for _, m := range sp.Modifies {
+							txt += exprString(m) + ";"
+						}
+						if !strings.Contains(txt, "[") {
+							continue
+						}
+					}
+					// unknown effect on maps: only relevant if the callee can reach the ranged map; be conservative
+					// for maps reachable from parameters/fields, not for maps made locally and not passed on
+					if _, local := strip(r.X).(*ssa.MakeMap); !local {
+						if sp != nil {
+							ins = true
+						}
+					}
+				}
+			}
+		}
+	}
+	return
 }
